@@ -235,3 +235,173 @@ def rule_bin_script(ctx, R):
         elif strargs:
             R.finding(fn, "string-typed-arguments", "%s carries command arguments as Strings: binary arguments cannot be represented" % fn.split("::")[-1], b.loc())
     R.floor("boundary_functions", n)
+
+
+# ---------------------------------------------------------------------------------------------
+# R-LUA-CONV: the two conversion functions against the standard conversion table
+# (https://redis.io/docs/latest/develop/programmability/lua-api/#data-type-conversion, RESP2):
+#   RESP -> Lua: integer->number(Integer); bulk->string; nil bulk / nil array->false(Boolean);
+#                status->table{ok}; error->raised, or table{err} under pcall; array->table, element
+#                k at index k (a nil element must not shift the later ones)
+#   Lua -> RESP: nil->nil bulk; false->nil bulk; true->integer 1; number->integer (truncated);
+#                string->bulk; table->array up to the first nil (empty table -> empty array)
+R2L_REF = {
+    "Integer": {"Integer"}, "BulkString/Some": {"String"}, "BulkString/None": {"Boolean"},
+    "SimpleString": {"Table"}, "Error": {"error"}, "Array/Some": {"Table"}, "Array/None": {"Boolean"},
+}
+L2R_REF = {
+    "Nil": {"BulkString"}, "Boolean": {"Integer", "BulkString"}, "Integer": {"Integer"}, "Number": {"Integer"},
+    "String": {"BulkString"}, "Table": {"Array"},
+}
+LUAVAL = re.compile(r"^mlua::(value::)?Value::(\w+)$")
+RESPV = re.compile(r"^protocol::resp::RespFrame::(\w+)$")
+
+
+def _top_switch(b, local):
+    for x, bb in enumerate(b.bbs):
+        t = bb["t"]
+        if t["k"] != "switch" or bb.get("cleanup"):
+            continue
+        dl = op_local(t["d"])
+        for st in bb["s"]:
+            if st["k"] == "=" and st["l"]["l"] == dl and st["r"]["k"] == "discr" and st["r"]["p"]["l"] == local and not st["r"]["p"]["p"]:
+                return x, t
+    return None
+
+
+def _variant_names(b, local):
+    """discriminant -> variant name, from the downcast projections of `local` used in b"""
+    out = {}
+    def visit(p):
+        if p and p["l"] == local:
+            for e in p["p"]:
+                if isinstance(e, dict) and "v" in e and "vi" in e:
+                    out[e["vi"]] = e["v"]; break
+    for bb in b.bbs:
+        for st in bb["s"]:
+            if st["k"] != "=":
+                continue
+            r = st["r"]
+            for o in ([r.get("o")] if not isinstance(r.get("o"), list) else r["o"]) + [r.get("a") if isinstance(r.get("a"), dict) else None, r.get("b")]:
+                if isinstance(o, dict) and not op_is_const(o) and op_place(o):
+                    visit(op_place(o))
+            if "p" in r and isinstance(r["p"], dict):
+                visit(r["p"])
+    return out
+
+
+def _cells(ctx, b, local, adt=None):
+    """{cell name: (switch bb, target bb)} for the top-level match on `local` incl. the nested
+    Option switches"""
+    top = _top_switch(b, local)
+    if not top:
+        return None
+    x, t = top
+    names = _variant_names(b, local)
+    cells = {}
+    for v, tb in t["ts"]:
+        nm = (ctx.prog.variant_name(adt, v) if adt else None) or names.get(v) or ("Nil" if v == 0 and not adt else "#%d" % v)
+        # nested Option switch directly in the arm's first block
+        tt = b.term(tb)
+        nested = None
+        if tt["k"] == "switch":
+            dl = op_local(tt["d"])
+            for st in b.stmts(tb):
+                if st["k"] == "=" and st["l"]["l"] == dl and st["r"]["k"] == "discr" and st["r"]["p"]["l"] == local and st["r"]["p"]["p"]:
+                    nested = tt
+        if nested:
+            ts = dict(nested["ts"])
+            if 0 in ts:
+                cells[nm + "/None"] = (tb, ts[0])
+            if 1 in ts:
+                cells[nm + "/Some"] = (tb, ts[1])
+        else:
+            cells[nm] = (x, tb)
+    return cells
+
+
+def _built(b, region, rx, group=1):
+    out = set()
+    for y in region:
+        if b.bbs[y].get("cleanup"):
+            continue
+        for st in b.stmts(y):
+            if st["k"] == "=" and st["r"]["k"] == "agg":
+                m = rx.match(st["r"]["a"])
+                if m:
+                    out.add(m.group(m.lastindex))
+    return out
+
+
+def rule_conv(ctx, R):
+    # ---- RESP -> Lua
+    b = ctx.prog.need(LE + "resp_frame_to_lua_value")
+    cells = _cells(ctx, b, 2, "protocol::resp::RespFrame")
+    if not cells:
+        R.broken.append("match on the frame not found in resp_frame_to_lua_value"); return
+    n = 0
+    for cell, ref in sorted(R2L_REF.items()):
+        if cell not in cells:
+            R.inst(b.fn, "resp->lua:" + cell, {"arm": None})
+            R.finding(b.fn, "resp->lua:%s:no-arm" % cell, "no conversion arm for %s replies" % cell, b.loc()); continue
+        n += 1
+        sw, tb = cells[cell]
+        reg = cfg.edge_dom_set(b, sw, tb)
+        got = _built(b, reg, LUAVAL)
+        errs = [y for y in reg if b.term(y)["k"] == "call" and callee(b.term(y)) == LE + "handle_command_error_with_context"]
+        # a failed allocation inside the arm also goes through the error helper: only the Error arm
+        # counts it as the conversion itself
+        if cell == "Error":
+            got = got | ({"error"} if errs else set())
+        R.inst(b.fn, "resp->lua:" + cell, {"builds": sorted(got), "reference": sorted(ref)})
+        if got != ref:
+            R.finding(b.fn, "resp->lua:%s:%s" % (cell, "+".join(sorted(got)) or "nothing"),
+                      "a %s reply is converted to Lua %s; the standard conversion gives %s" % (cell, "/".join(sorted(got)) or "nothing", "/".join(sorted(ref))), b.loc(tb))
+        if cell == "Array/Some":
+            sets = []; pushes = []
+            for y in reg:
+                t = b.term(y)
+                if t["k"] != "call":
+                    continue
+                f = t["f"] or ""
+                if re.search(r"^mlua::Table::(set|raw_set)(::<.*>)?$", f):
+                    sets.append(y)
+                elif re.search(r"^mlua::Table::(push|raw_push|insert|raw_insert)(::<.*>)?$", f):
+                    pushes.append(y)
+            pos_ok = False
+            for y in sets:
+                t = b.term(y)
+                if len(t["a"]) > 1 and not op_is_const(t["a"][1]):
+                    P = prov.operand_origins(b, t["a"][1])
+                    if P.has_call(r"Iterator>::(next|enumerate)|iter::range"):
+                        pos_ok = True
+            R.inst(b.fn, "resp->lua:Array/Some:positions", {"indexed_stores": len(sets), "appends": len(pushes), "index_from_loop_counter": pos_ok})
+            if pushes or not pos_ok:
+                y = (pushes or sets or [tb])[0]
+                R.finding(b.fn, "resp->lua:Array/Some:positions", "array elements are %s (line %d): a nil element does not occupy its slot, so every later element of the reply moves down one index" % ("appended to the table instead of being stored at their position" if pushes else "not stored at an index derived from their position", b.bb_line(y)), b.loc(y))
+    R.floor("resp_to_lua_cells", n)
+    # pcall error value
+    hb = ctx.prog.need(LE + "handle_command_error_with_context")
+    got = _built(hb, set(range(len(hb.bbs))), LUAVAL)
+    R.inst(hb.fn, "resp->lua:Error/pcall", {"builds": sorted(got), "reference": ["Table"]})
+    if got != {"Table"}:
+        R.finding(hb.fn, "resp->lua:Error/pcall:%s" % ("+".join(sorted(got)) or "nothing"), "under redis.pcall an error reply becomes Lua %s; the standard conversion gives a table with an `err` field" % ("/".join(sorted(got)) or "nothing"), hb.loc())
+    # ---- Lua -> RESP
+    b = ctx.prog.need(LE + "lua_value_to_resp")
+    cells = _cells(ctx, b, 2, None)
+    if not cells:
+        R.broken.append("match on the value not found in lua_value_to_resp"); return
+    m = 0
+    for cell, ref in sorted(L2R_REF.items()):
+        if cell not in cells:
+            R.inst(b.fn, "lua->resp:" + cell, {"arm": None, "cells": sorted(cells)})
+            R.finding(b.fn, "lua->resp:%s:no-arm" % cell, "no conversion arm for Lua %s values" % cell, b.loc()); continue
+        m += 1
+        sw, tb = cells[cell]
+        reg = cfg.edge_dom_set(b, sw, tb)
+        got = _built(b, reg, RESPV)
+        R.inst(b.fn, "lua->resp:" + cell, {"builds": sorted(got), "reference": sorted(ref)})
+        if got != ref:
+            R.finding(b.fn, "lua->resp:%s:%s" % (cell, "+".join(sorted(got)) or "nothing"),
+                      "a Lua %s is converted to RESP %s; the standard conversion gives %s" % (cell, "/".join(sorted(got)) or "nothing", "/".join(sorted(ref))), b.loc(tb))
+    R.floor("lua_to_resp_cells", m)
